@@ -16,7 +16,8 @@ SPEC = dict(
          'derived signature = its first serialization); every verdict (return code, finalResult.resultCode, errorCode) and every derivation (return code, bytes of the '
          'derived signature) equals the result of the same call on a FRESH context with a freshly parsed copy (tabulated lazily, cache keyed by signature bytes and '
          'parameters); garbage must be refused; the context\'s last-failed signature must stay serializable; at the end no SDK allocation may stay live; ASan/UBSan silent. '
-         'Further: operation getters (caller-owned results released as documented, hash pool exercised); canonical signatures carry a legacy-id and a metadata link; the one-call prepend form at start level 0.',
+         'Further: operation getters (caller-owned results released as documented, hash pool exercised); canonical signatures carry a legacy-id and a metadata link; the one-call prepend form at start level 0. '
+         'After every internal-policy verification the same question is put through KSI_Signature_verifyWithPolicy with the verification context the application keeps for all its calls.',
     bounds=dict(quick='all applicable sequences of <= 2 operations after parse(s0) over the full alphabet (37 324 histories) + all of exactly 3 operations over the '
                       '30-letter sub-alphabet that touches caches and state (24 203 histories)',
                 thorough='all applicable sequences of <= 3 operations after parse(s0) over the full alphabet (4 115 332 histories) + all of exactly 4 operations over the '
